@@ -1,5 +1,49 @@
+/-
+Helper lemmas for `Bolt.Props.C04BktRoot` (the transaction's root bucket as the modelled top
+bucket): `commitRoot` is `commitBk` without the inline branch, so its correctness is assembled
+from the same pieces (`BktCommitL.rebalanceBk_ok`, `spillBk_ok`, `full_ok`); a whole transaction
+is a fold of per-call steps keeping an invariant.
+-/
 import Bolt.Lemmas.BktTx
 namespace Bolt.Bkt.BktRootL
-open Bolt Bolt.BTree Bolt.Bkt
+open Bolt Bolt.BTree Bolt.Bkt Bolt.Bkt.BktCommitL
+
+/-- `commitRoot` = `Bucket.rebalance` then `Bucket.spill`, never inline (cf. `BktCommitL.commit_ok`) -/
+theorem commitRoot_ok (ps sth rth fu : Nat) (orig cur : Bk) (order : List Nat)
+    (hw : WF fu orig cur) (hf : fuelOk' fu fu cur = true)
+    (hc : ∀ pg ∈ allMat fu fu cur, pg ∈ order) :
+    ∃ cur' fu', commitRoot ps sth rth fu order cur = some cur' ∧
+      absTop fu orig cur' = absTop fu orig cur ∧
+      fu ≤ fu' ∧ origShapeOk fu' (full orig fu [] cur') = true ∧
+      absTop fu' (full orig fu [] cur') (full orig fu [] cur') = absTop fu orig cur := by
+  obtain ⟨ho, hcur⟩ := hw
+  obtain ⟨b1, e1, hmid, habs1⟩ := rebalanceBk_ok orig rth fu order fu [] cur (Nat.le_refl _) hcur hf hc
+  obtain ⟨b2, had, e2, hout, h2⟩ := spillBk_ok orig ps sth fu fu [] b1 hmid
+  have habs : absBk orig fu [] b2 = absBk orig fu [] cur := h2.trans habs1
+  have e : commitRoot ps sth rth fu order cur = some b2 := by
+    unfold commitRoot
+    rw [e1, Option.bind_some, e2]; rfl
+  obtain ⟨F, hF⟩ := full_ok orig fu ho fu [] b2 (by simp) hout
+  obtain ⟨hs, ha⟩ := hF (max F fu) (by omega)
+  refine ⟨b2, max F fu, e, ?_, by omega, hs, ?_⟩
+  · unfold absTop; rw [habs]
+  · unfold absTop; rw [ha, habs]
+
+/-- a fold of steps, each keeping an invariant and following a reference step whenever its
+    precondition holds, keeps the invariant and follows the fold of the reference steps -/
+theorem foldl_refines {α σ τ : Type} (step : σ → α → σ) (spec : τ → α → τ) (abs : σ → τ)
+    (Inv : σ → Prop) (Pre : σ → α → Prop) (Ok : σ → List α → Prop)
+    (hnext : ∀ s a l, Ok s (a :: l) → Pre s a ∧ Ok (step s a) l)
+    (hstep : ∀ s a, Inv s → Pre s a → Inv (step s a) ∧ abs (step s a) = spec (abs s) a) :
+    ∀ (l : List α) (s : σ), Inv s → Ok s l →
+      Inv (l.foldl step s) ∧ abs (l.foldl step s) = l.foldl spec (abs s)
+  | [], _, hi, _ => ⟨hi, rfl⟩
+  | a :: l, s, hi, hok => by
+    obtain ⟨hp, hrest⟩ := hnext s a l hok
+    obtain ⟨hi', ha⟩ := hstep s a hi hp
+    obtain ⟨hi'', ha'⟩ := foldl_refines step spec abs Inv Pre Ok hnext hstep l (step s a) hi' hrest
+    refine ⟨hi'', ?_⟩
+    simp only [List.foldl_cons]
+    rw [ha', ha]
 
 end Bolt.Bkt.BktRootL
